@@ -79,7 +79,7 @@ func (g *Generator) generateMethodFunction(obj *tlparser.Method) jen.Code {
 	//*
 	//*	resp, ok := data.(*AuthSentCode)
 	//*	if !ok {
-	//*		panic("got invalid response type: " + reflect.TypeOf(data).String())
+	//*		return nil, errors.Errorf("got invalid response type: %T", data)
 	//*	}
 	//*
 	//*	return resp, nil
@@ -91,7 +91,8 @@ func (g *Generator) generateMethodFunction(obj *tlparser.Method) jen.Code {
 		jen.Line(),
 		jen.List(jen.Id("resp"), jen.Id("ok")).Op(":=").Id("responseData").Assert(resp),
 		jen.If(jen.Op("!").Id("ok")).Block(
-			jen.Panic(jen.Lit("got invalid response type: ").Op("+").Qual("reflect", "TypeOf").Call(jen.Id("responseData")).Dot("String").Call()),
+			// %T and not reflect.TypeOf(..).String(): responseData is nil when the server answers with null
+			jen.Return(zero, jen.Qual(errorsPackagePath, "Errorf").Call(jen.Lit("got invalid response type: %T"), jen.Id("responseData"))),
 		),
 		jen.Return(jen.Id("resp"), jen.Nil()),
 	)
